@@ -927,7 +927,14 @@ impl NewCase {
             want.dedup();
             let mut confirmed = false;
             let mut first: Option<RunReport> = None;
-            let tries = if self.workers() <= 1 { 1 } else { 6 };
+            // a program that hangs for real hangs on the first try; a panic may need its interleaving
+            let tries = if self.workers() <= 1 {
+                1
+            } else if want == ["hang"] {
+                2
+            } else {
+                6
+            };
             let mut ran = 0;
             for k in 0..tries {
                 let mut c = self.clone();
@@ -1527,7 +1534,7 @@ pub fn step_budget(plan_len: usize, workers: usize) -> u32 {
     (4000 + 400 * (plan_len + workers)) as u32
 }
 pub fn generous_requests(workers: usize) -> u32 {
-    (384 + 96 * workers) as u32
+    (384 + 32 * workers) as u32
 }
 pub fn generous_steps(workers: usize) -> u32 {
     16 * generous_requests(workers)
